@@ -118,3 +118,17 @@ contract(KG2 + "KlattPointTier.getAsText", serves=["C19"], spec_module="spec.ren
                                                minTimestamp=S.real("self.min"), maxTimestamp=S.real("self.max"))),
          requires=["-1e15 <= self.minTimestamp", "self.minTimestamp <= 1e15"],
          spec="spec.render.klatt_point_tier", raises={})
+
+
+# ---- C02 / C04: getTextgridAsStr renders the requested text format from the dictionary _prepTgForSaving hands over
+# (blank filling off; the json formats go through json.dumps: assumption A3, not under contract)
+def gtas_inputs(S, cfg):
+    lo = None if cfg["override"] is None else S.real("minTimestamp")
+    hi = None if cfg["override"] is None else S.real("maxTimestamp")
+    return dict(tg=tg_dict(S, cfg["k"], "IP", lo, hi), format=cfg["format"], includeBlankSpaces=False,
+                minTimestamp=lo, maxTimestamp=hi, minimumIntervalLength=S.real("minimumIntervalLength"))
+
+
+contract(IO + "getTextgridAsStr", serves=["C02", "C04"], spec_module="spec.render",
+         configs={"k": [1, 2], "format": ["short_textgrid", "long_textgrid", "bogus"], "override": [None, "sym"]},
+         inputs=gtas_inputs, spec="spec.render.textgrid_as_str")
